@@ -13,7 +13,8 @@ Record pgood (d : dfa) (p : partition) : Prop := {
              (In x (dfinal d) <-> In y (dfinal d));
   pg_reps : forall G r G' r', In (G, r) (pgroups p) -> In (G', r') (pgroups p) -> r = r' -> G = G';
   pg_nonneg : forall G r, In (G, r) (pgroups p) -> 0 <= r < pnext p;
-  pg_sub : forall G r x, In (G, r) (pgroups p) -> In x G -> In x (dstates d) }.
+  pg_sub : forall G r x, In (G, r) (pgroups p) -> In x G -> In x (dstates d);
+  pg_nodup : NoDup (map snd (pgroups p)) }.
 
 (** two states of one group move, on every symbol, into one group *)
 Definition pstable (d : dfa) (p : partition) : Prop :=
